@@ -2,12 +2,11 @@ import Wl2kVerif.B2F.InGrammar
 import Wl2kVerif.Proofs.PairFrame
 import Wl2kVerif.Proofs.EmitAccept
 /-
-Acceptance half of C05, the unfinished last unit: a connection that ends inside a transfer frame — at any
-of the cuts the input grammar's `InGrammar.cutFrame` allows — is reported by `readCompressed` as a lost
-connection (`.error .eof`), with all input consumed and nothing written / called.
-FINDING (also proved here): the one cut `cutFrame` excludes, between the EOT and its checksum byte, is NOT
-reported as a lost connection in general: the missing byte reads as 0, so unless the running data sum is
-0 mod 256 the answer is the protocol error "bad-checksum".
+Acceptance half of C05, the unfinished last unit: a connection that ends inside a transfer frame — at ANY
+cut position (`InGrammar.cutFrame`), the one between the EOT and its checksum byte included — is reported by
+`readCompressed` as a lost connection (`.error .eof`), with all input consumed and nothing written / called.
+(Before the repair of fbb/b2f.go `readCompressed` the cut between the EOT and its checksum byte was an
+exception: the missing byte read as 0; `run_readBlocks_eot_eof` states the new behaviour.)
 -/
 namespace Wl2k.B2F
 open Wl2k Wl2k.Str Wl2k.Strconv Wl2k.B2F.InGrammar
@@ -23,18 +22,24 @@ theorem cutBlocks_stx (f : Nat) (l : UInt8) (d : Bytes) :
        else cutBlocks f (d.drop (if l = 0 then 256 else l.toNat))) := by
   simp only [cutBlocks]
 
-/-- a non-empty cut block sequence starts with STX -/
-theorem cutBlocks_head (f : Nat) (c : UInt8) (d : Bytes) (hc : cutBlocks (f + 1) (c :: d) = true) : c = 2 := by
-  by_cases h2 : c = 2
-  · exact h2
-  · exfalso
-    unfold cutBlocks at hc
-    split at hc
-    · simp at *
-    · simp at *
-    · rename_i heq; simp at heq; exact h2 heq.1
-    · rename_i heq; simp at heq; exact h2 heq.1
-    · simp at hc
+/-- a non-empty cut block sequence starts with STX, or is the lone EOT -/
+theorem cutBlocks_head (f : Nat) (c : UInt8) (d : Bytes) (hc : cutBlocks (f + 1) (c :: d) = true) :
+    c = 2 ∨ (c = 4 ∧ d = []) := by
+  unfold cutBlocks at hc
+  split at hc
+  · simp at *
+  · simp at *
+  · rename_i heq; simp at heq; exact Or.inl heq.1
+  · rename_i heq; simp at heq; exact Or.inr heq
+  · rename_i heq; simp at heq; exact Or.inl heq.1
+  · simp at hc
+
+/-- the cut between the EOT and its checksum byte: the read error of the checksum byte is returned — a lost
+connection, whatever the running data sum is -/
+theorem run_readBlocks_eot_eof (csize : Int) (fuel : Nat) (buf : Bytes) (sum : Nat) (h : H) (tr : List Ev) :
+    Proc.run hstep (readBlocks csize (fuel + 1) buf sum) [4] h tr = (.done (.error .eof), [], h, tr) := by
+  have h42 : ¬ ((4 : UInt8) = 2) := by decide
+  simp only [readBlocks, Proc.run, h42, if_false, if_true]
 
 /-- **the block loop on a cut block sequence**: complete blocks, then a cut one (or nothing) — EOF -/
 theorem run_readBlocks_cut (csize : Int) : ∀ (f : Nat) (d : Bytes), cutBlocks f d = true →
@@ -51,41 +56,32 @@ theorem run_readBlocks_cut (csize : Int) : ∀ (f : Nat) (d : Bytes), cutBlocks 
       cases d with
       | nil => simp only [readBlocks, Proc.run]
       | cons c d =>
-        have h2 := cutBlocks_head f c d hc
-        subst h2
-        cases d with
-        | nil =>
-          simp only [readBlocks, Proc.run, if_true]
-          rw [run_bind, run_readN_short hstep [] 256 [] h tr (by simp)]
-          simp only [Proc.run]
-        | cons l d =>
-          rw [cutBlocks_stx] at hc
-          simp only [readBlocks, Proc.run, if_true]
-          generalize hn : (if l = 0 then 256 else l.toNat) = n at hc ⊢
-          by_cases hlt : d.length < n
-          · rw [run_bind, run_readN_short hstep d n [] h tr hlt]
+        rcases cutBlocks_head f c d hc with h2 | ⟨h4, hd⟩
+        · subst h2
+          cases d with
+          | nil =>
+            simp only [readBlocks, Proc.run, if_true]
+            rw [run_bind, run_readN_short hstep [] 256 [] h tr (by simp)]
             simp only [Proc.run]
-          · simp only [hlt, if_false] at hc
-            have hsplit : d = d.take n ++ d.drop n := (List.take_append_drop n d).symm
-            have hlen : (d.take n).length = n := by rw [List.length_take]; omega
-            have hrun := run_readN hstep (d.take n) [] (d.drop n) h tr
-            rw [hlen, ← hsplit] at hrun
-            rw [run_bind, hrun]
-            simp only
-            exact ih (d.drop n) hc fuel _ _ h tr (by
-              simp only [List.length_cons] at hf
-              rw [List.length_drop]; omega)
-
-/-- **FINDING**: the cut between the EOT and its checksum byte. The missing checksum byte reads as 0; unless
-the running data sum happens to be 0 mod 256, the answer is the protocol error "bad-checksum", not a lost
-connection. (This is why `cutFrame` excludes this cut.) -/
-theorem run_readBlocks_eot_eof (csize : Int) (fuel : Nat) (buf : Bytes) (sum : Nat) (hs : sum % 256 ≠ 0)
-    (h : H) (tr : List Ev) :
-    Proc.run hstep (readBlocks csize (fuel + 1) buf sum) [4] h tr =
-      (.done (.error (.proto "bad-checksum")), [], h, tr) := by
-  have h42 : ¬ ((4 : UInt8) = 2) := by decide
-  simp only [readBlocks, Proc.run, h42, if_false, if_true, Nat.add_zero]
-  simp only [ne_eq, hs, not_false_eq_true, if_true, Proc.run]
+          | cons l d =>
+            rw [cutBlocks_stx] at hc
+            simp only [readBlocks, Proc.run, if_true]
+            generalize hn : (if l = 0 then 256 else l.toNat) = n at hc ⊢
+            by_cases hlt : d.length < n
+            · rw [run_bind, run_readN_short hstep d n [] h tr hlt]
+              simp only [Proc.run]
+            · simp only [hlt, if_false] at hc
+              have hsplit : d = d.take n ++ d.drop n := (List.take_append_drop n d).symm
+              have hlen : (d.take n).length = n := by rw [List.length_take]; omega
+              have hrun := run_readN hstep (d.take n) [] (d.drop n) h tr
+              rw [hlen, ← hsplit] at hrun
+              rw [run_bind, hrun]
+              simp only
+              exact ih (d.drop n) hc fuel _ _ h tr (by
+                simp only [List.length_cons] at hf
+                rw [List.length_drop]; omega)
+        · subst h4; subst hd
+          exact run_readBlocks_eot_eof hstep csize fuel buf sum h tr
 
 /-! ### the header -/
 
@@ -190,5 +186,84 @@ theorem run_readCompressed_cut (tail : Bytes) (hc : cutFrame tail = true) (p : P
             have hat : atoi [48] = (0, false) := by decide
             have hblk := run_readBlocks_cut hstep p.csize (r3.length + 1) r3 hcb fuel [] 0 h tr (by omega)
             simp [hat, hlen, hoff, hblk]
+
+/-! ### the cut between the EOT and its checksum byte is one of the cuts -/
+
+/-- complete blocks followed by the lone EOT are a cut block sequence -/
+theorem cutBlocks_eot : ∀ (chunks : List Bytes) (f : Nat), (chunks.map InGrammar.blockBytes).flatten.length < f →
+    (∀ c ∈ chunks, 1 ≤ c.length ∧ c.length ≤ 256) →
+    cutBlocks f ((chunks.map InGrammar.blockBytes).flatten ++ [4]) = true := by
+  intro chunks
+  induction chunks with
+  | nil =>
+    intro f hf _
+    cases f with
+    | zero => simp at hf
+    | succ f => simp [cutBlocks]
+  | cons c cs ih =>
+    intro f hf hwf
+    cases f with
+    | zero => simp at hf
+    | succ f =>
+      have hc := hwf c (by simp)
+      simp only [List.map_cons, List.flatten_cons, InGrammar.blockBytes, List.cons_append, List.nil_append, List.append_assoc,
+        List.length_cons, List.length_append] at hf ⊢
+      rw [cutBlocks_stx]
+      have hn : (if UInt8.ofNat (c.length % 256) = 0 then 256 else (UInt8.ofNat (c.length % 256)).toNat) = c.length := by
+        by_cases h256 : c.length = 256
+        · rw [h256]; decide
+        · have hl : (UInt8.ofNat (c.length % 256)) ≠ 0 := by
+            intro e
+            have := congrArg UInt8.toNat e
+            simp at this
+            omega
+          rw [if_neg hl]
+          simp; omega
+      rw [hn]
+      have hlt : ¬ (c ++ ((cs.map InGrammar.blockBytes).flatten ++ [4])).length < c.length := by
+        simp only [List.length_append]; omega
+      rw [if_neg hlt, List.drop_left]
+      exact ih f (by omega) (fun x hx => hwf x (by simp [hx]))
+
+/-- the title field ends at the first NUL -/
+theorem takeWhile_title (z : UInt8) : ∀ (title X : Bytes), z ∉ title →
+    (title ++ z :: X).takeWhile (· != z) = title := by
+  intro title
+  induction title with
+  | nil => intro X _; simp
+  | cons a t ih =>
+    intro X hz
+    simp only [List.mem_cons, not_or] at hz
+    have hne : (a != z) = true := by simp; exact fun e => hz.1 e.symm
+    simp only [List.cons_append, List.takeWhile_cons, hne, if_true, ih X hz.2]
+
+/-- a well-formed transfer without its last byte (the checksum byte) is an unfinished transfer the input grammar
+allows -/
+theorem cutFrame_dropLast (title : Bytes) (chunks : List Bytes) (ck : UInt8) (hz : (0 : UInt8) ∉ title)
+    (hlen : title.length + 3 < 256) (hwf : ∀ c ∈ chunks, 1 ≤ c.length ∧ c.length ≤ 256) :
+    cutFrame (RUnit.frame title chunks ck).bytes.dropLast = true := by
+  have hb : (RUnit.frame title chunks ck).bytes.dropLast =
+      1 :: UInt8.ofNat (title.length + 3) :: (title ++ 0 :: 48 :: 0 :: ((chunks.map InGrammar.blockBytes).flatten ++ [4])) := by
+    have : (RUnit.frame title chunks ck).bytes =
+        (1 :: UInt8.ofNat (title.length + 3) :: (title ++ 0 :: 48 :: 0 :: ((chunks.map InGrammar.blockBytes).flatten ++ [4]))) ++ [ck] := by
+      simp [RUnit.bytes]
+    rw [this, List.dropLast_concat]
+  rw [hb]
+  simp only [cutFrame, takeWhile_title 0 title _ hz, List.drop_left]
+  have h1 : (UInt8.ofNat (title.length + 3)).toNat = title.length + 3 := by simp; omega
+  rw [h1, cutBlocks_eot chunks _ (by simp only [List.length_append, List.length_cons, List.length_nil]; omega) hwf]
+  simp
+
+/-- **the cut between the EOT and its checksum byte, whole transfer**: a well-formed transfer (any title, any
+blocks, any data sum) whose checksum byte never arrives ends `readCompressed` with a lost connection -/
+theorem run_readCompressed_eot_eof (title : Bytes) (chunks : List Bytes) (ck : UInt8) (hz : (0 : UInt8) ∉ title)
+    (hlen : title.length + 3 < 256) (hwf : ∀ c ∈ chunks, 1 ≤ c.length ∧ c.length ≤ 256)
+    (p : Proposal) (hoff : p.offset = 0) (fuel : Nat) (hf : (RUnit.frame title chunks ck).bytes.length ≤ fuel)
+    (h : H) (tr : List Ev) :
+    Proc.run hstep (readCompressed fuel p) (RUnit.frame title chunks ck).bytes.dropLast h tr =
+      (.done (.error .eof), [], h, tr) := by
+  refine run_readCompressed_cut hstep _ (cutFrame_dropLast title chunks ck hz hlen hwf) p hoff fuel ?_ h tr
+  have : 0 < (RUnit.frame title chunks ck).bytes.length := by simp [RUnit.bytes]
+  rw [List.length_dropLast]; omega
 
 end Wl2k.B2F
